@@ -83,3 +83,54 @@ def replay_seeds(ctx, prop, run_rules):
     for e in silent:
         print("SELFTEST-REGRESSION: property=%s seed=%s stayed silent" % (prop, e["seed"]))
     return {"seeds_replayed": res, "seeds_fired": len([e for e in res if e["status"] == "fired"]), "seeds_silent": len(silent)}
+
+
+def clippy_xref(ctx, prop):
+    """C05 thorough: cross-reference of the MIR site enumeration with rustc/clippy's opt-in lints
+    (arithmetic_side_effects, indexing_slicing, string_slice, unwrap_used, expect_used, panic):
+    every location the lints flag in the library must be among the enumerated panic sites.
+    This validates the *completeness* of the enumeration; the lints give no verdict themselves."""
+    if prop != "C05":
+        return {}
+    import panics
+    env = dict(os.environ, CARGO_NET_OFFLINE="true", CARGO_TARGET_DIR=os.path.join(extract.CACHE, "target-clippy"))
+    env.pop("RUSTC_WORKSPACE_WRAPPER", None)
+    env.pop("RUSTFLAGS", None)
+    lints = ["arithmetic_side_effects", "indexing_slicing", "string_slice", "unwrap_used", "expect_used", "panic"]
+    cmd = ["cargo", "+nightly", "clippy", "--offline", "--lib", "--features", "ram_bundle", "--message-format=json", "--", "-A", "clippy::all"]
+    for l in lints:
+        cmd += ["-W", "clippy::" + l]
+    # force a re-lint of the crate
+    import glob as _g
+    for f in _g.glob(os.path.join(env["CARGO_TARGET_DIR"], "debug", ".fingerprint", "sourcemap-*")):
+        shutil.rmtree(f, ignore_errors=True)
+    r = subprocess.run(cmd, cwd=extract.REPO, env=env, stdout=subprocess.PIPE, stderr=subprocess.DEVNULL, text=True)
+    locs = set()
+    for line in r.stdout.splitlines():
+        try:
+            m = json.loads(line)
+        except ValueError:
+            continue
+        if m.get("reason") != "compiler-message":
+            continue
+        msg = m["message"]
+        code = (msg.get("code") or {}).get("code") or ""
+        if not code.startswith("clippy::"):
+            continue
+        for sp in msg["spans"]:
+            if sp.get("is_primary"):
+                locs.add((sp["file_name"].split("src/")[-1], sp["line_start"], code))
+    if not locs:
+        ctx.remark("clippy cross-reference produced no lint output (clippy unavailable?); skipped")
+        return {"clippy_xref": "skipped"}
+    mir_lines = set()
+    for b in ctx.facts.bodies:
+        if b.promoted is not None or b.derived:
+            continue
+        for s in panics.sites_of(b):
+            for ln in range(s.span["l0"], s.span["l1"] + 1):
+                mir_lines.add((s.span["file"].split("src/")[-1], ln))
+    miss = sorted(x for x in locs if (x[0], x[1]) not in mir_lines)
+    ctx.check(not miss, "C05.X", "crate", "clippy-xref",
+              "every location flagged by the opt-in clippy lints %s is among the enumerated MIR panic sites (%d locations)" % (lints, len(locs)), detail=str(miss[:6]))
+    return {"clippy_xref": {"lint_locations": len(locs), "not_in_mir_enumeration": len(miss)}}
